@@ -79,7 +79,7 @@ class Suite:
             if "__rejected" in self.corpus.names[pi]:
                 continue
             lines.append("Definition c_%d := %s." % (pi, p.to_contract(concrete=True).coq()))
-            lines.append("Definition ifs_%d := %s." % (pi, common.coq_list([p.to_iface(i, concrete=True).coq() for i in p.ifaces])))
+            lines.append("Definition ifs_%d : list iface := %s." % (pi, common.coq_list([p.to_iface(i, concrete=True).coq() for i in p.ifaces])))
             for k, kc in KIND_COQ.items():
                 lines.append("Definition parts_%d_%s := Eval vm_compute in parts_of c_%d ifs_%d %s." % (pi, k, pi, pi, kc))
                 lines.append("Definition tables_%d_%s := Eval vm_compute in tables_of c_%d ifs_%d %s." % (pi, k, pi, pi, kc))
